@@ -10,6 +10,7 @@ import LlgVerif.Model.Stop
 import LlgVerif.Model.Shared
 import LlgVerif.Model.TokRanges
 import Driver.Util
+import LlgVerif.Model.IntRange
 open LlgVerif Drv
 
 def wordsOf (l : List Nat) : List Word := l.map (fun n => BitVec.ofNat 32 n)
@@ -189,7 +190,7 @@ def parseRanges? (s : String) : Option (List (Nat × Nat)) :=
     | [a, b] => do pure ((← a.toNat?), (← b.toNat?))
     | _ => none)
 
-def litRx (bs : List UInt8) : Rx :=
+def litRxD (bs : List UInt8) : Rx :=
   bs.foldr (fun b acc => Rx.mkCat (Rx.set [(b.toNat, b.toNat)]) acc) Rx.eps
 
 /-- byte-level regex s-expression -> `Rx` (n-ary `cat`/`alt`/`and` fold to the right) -/
@@ -197,7 +198,7 @@ partial def rxOfSexp : SExp → Option Rx
   | .list [.atom "empty"] => some Rx.empty
   | .list [.atom "eps"] => some Rx.eps
   | .list [.atom "set", .atom rs] => (parseRanges? rs).map Rx.set
-  | .list [.atom "lit", .atom h] => (parseHex? h).map litRx
+  | .list [.atom "lit", .atom h] => (parseHex? h).map litRxD
   | .list (.atom "cat" :: xs) => do
       let rs ← xs.mapM rxOfSexp
       pure (rs.foldr Rx.cat Rx.eps)
@@ -389,6 +390,30 @@ def handleRanges (args : List String) : String :=
     | _, _ => "bad-op"
   | _ => "bad-op"
 
+def parseOptInt? (s : String) : Option (Option Int) :=
+  if s = "none" then some none
+  else if s.startsWith "-" then (s.drop 1).toString.toNat?.map (fun n => some (-(n : Int)))
+  else s.toNat?.map (fun n => some (n : Int))
+
+/-- `num int <l|none> <r|none>` -> printed pattern; `num m <l> <r> <hexlist>` -> membership bits -/
+def handleNum (args : List String) : String :=
+  match args with
+  | ["int", l, r] =>
+    match parseOptInt? l, parseOptInt? r with
+    | some l, some r =>
+      match rxIntRange l r with
+      | .ok p => "ok " ++ p.s
+      | .error _ => "err"
+    | _, _ => "bad-op"
+  | ["m", l, r, ws] =>
+    match parseOptInt? l, parseOptInt? r, parseHexList? ws with
+    | some l, some r, some ws =>
+      match rxIntRange l r with
+      | .ok p => "ok " ++ String.join (ws.map (fun w => showBool (Rx.matchesB p.rx w)))
+      | .error _ => "err"
+    | _, _, _ => "bad-op"
+  | _ => "bad-op"
+
 def handleTrie (st : St) (args : List String) : St × String :=
   match args with
   | ["build", ws] =>
@@ -449,6 +474,7 @@ def step (st : St) (line : String) : St × String :=
   | "stop" :: args => handleStop st args
   | "shared" :: args => handleShared st args
   | "ranges" :: args => (st, handleRanges args)
+  | "num" :: args => (st, handleNum args)
   | "rb" :: args => handleRb st args
   | ["reset"] => ({}, "ok")
   | _ => (st, "bad-op")
